@@ -1627,6 +1627,13 @@ def tie_check(ctx, prog, tie, verdict, stream):
                              "import line: impAt/impDest of the refinement theorem differ from the line that is run: %s" % (t,))
     if "frag" in tie:
         ctx.count("tie.fragRunB.%s" % ("accepts" if tie["frag"] else "refuses"))
+    if "nested" in tie:
+        # runNB (C17_refinement_nested_checked_partial) on the main program read as NLines; "accepts" also means that
+        # the line records the theorem speaks about are, field by field, the records the model was run on
+        # (a count only: the theorem is conditional on the specification accepting the program, so an accepted
+        # program with verdict "rejected" is no contradiction)
+        ctx.count("tie.runNB.%s" % tie["nested"])
+        ctx.count("tie.runNB.%s.spec_%s" % (tie["nested"], verdict))
 
 
 def prog_stream(ctx, progs, stream):
